@@ -1297,6 +1297,12 @@ func (s *Netceptor) forwardMessage(md *MessageData) error {
 
 		return nil
 	}
+	if len(md.Data) > s.mtu {
+		// The MTU is the largest payload the network carries.  Backends cannot be relied on to
+		// carry more (the TCP framing has a 16-bit length, UDP has its datagram limit), so an
+		// oversized packet from one peer must not be pushed onto another peer's connection.
+		return fmt.Errorf("message of %d bytes exceeds the MTU of %d", len(md.Data), s.mtu)
+	}
 	s.routingTableLock.RLock()
 	nextHop, ok := s.routingTable[md.ToNode]
 	s.routingTableLock.RUnlock()
